@@ -206,6 +206,33 @@ LoadP(X, ord, R, F, policy) == LoadPFrom(X, ord, R, F, policy, NoInj(X))   \* in
 StripDefaults(F) == SelectSeq(F, LAMBDA ln : ~ln.d)
 
 ----------------------------------------------------------------------------
+(* kconfgen main(): every --defaults file is merged in turn (a right-hand  *)
+(* side left empty means n there), then the sdkconfig, if it exists, is    *)
+(* merged on top; each merge resolves its own default-marked entries under *)
+(* the policy, against the user values gathered so far; injections made by *)
+(* one merge stay in force.  The outputs are written from the result.      *)
+FixEmpty(X, F) ==   \* `CONFIG_X=` (nothing after the sign, not a quoted string) is read as `CONFIG_X=n`
+  [k \in 1..Len(F) |->
+     IF F[k].v = "" /\ ~F[k].u /\ (F[k].n \notin DOMAIN X.s \/ X.s[F[k].n].type # "string")
+       THEN [F[k] EXCEPT !.v = "n"] ELSE F[k]]
+
+MergeP(X, ord, R, F, policy, st) ==   \* st = [U, P, I]
+  LET base == Load(X, R, F, FALSE, st.U, st.P)
+      dm == DefaultMarked(X, R, F)
+      r == FoldLeft(LAMBDA acc, o : ResolveStep(X, ord, dm, policy, base.U, base.P, acc, o),
+                    [I |-> st.I, mism |-> {}], ord)
+  IN [U |-> base.U, P |-> base.P, I |-> r.I, mism |-> r.mism, missing |-> base.missing]
+
+GenRun(X, ord, R, Ds, sdk, policy) ==   \* Ds: sequence of defaults files; sdk = [ex, lines]
+  LET s0 == [U |-> NoUser(X).U, P |-> NoUser(X).P, I |-> NoInj(X), mism |-> {}]
+      step(st, F) == LET m == MergeP(X, ord, R, FixEmpty(X, F), policy, st)
+                     IN [U |-> m.U, P |-> m.P, I |-> m.I, mism |-> {}]
+      s1 == FoldLeft(step, s0, Ds)
+  IN IF sdk.ex THEN LET m == MergeP(X, ord, R, sdk.lines, policy, s1)
+                    IN [U |-> m.U, P |-> m.P, I |-> m.I, mism |-> m.mism]
+     ELSE s1
+
+----------------------------------------------------------------------------
 (* One step of a session.  st = [U, P]; act is a record:                   *)
 (*   [a |-> "set", n, v]  [a |-> "unset", n]  [a |-> "reset", n]           *)
 (*   [a |-> "resetch", c] [a |-> "unsetch", c]                             *)
